@@ -957,6 +957,7 @@ class DataFrameInternal:
     def drop(self, cols):
         positions_to_drop = []
         for col in cols:
+            name = col if isinstance(col, str) else None
             if isinstance(col, str):
                 if col == "*":
                     continue
@@ -964,8 +965,12 @@ class DataFrameInternal:
             try:
                 positions_to_drop.append(col.find_position_in_schema(self.bound_schema))
             except (ValueError, AnalysisException):
-                # dropping a column that does not exist is a no-op
-                pass
+                # dropping a column that does not exist is a no-op; a name
+                # that several columns carry drops all of them
+                positions_to_drop.extend(
+                    i for i, field in enumerate(self.bound_schema.fields)
+                    if name is not None and field.name == name
+                )
 
         new_schema = StructType([
             field
